@@ -354,6 +354,23 @@ def run(ctx):
              "filter on fitted positions drops components of a straddling "
              "island whose peak lies outside)")
     ALLOWED9 = {"find_islands", "_gen_flood_wrap"}
+    # a private helper that only the island finders call belongs to them
+    rawp9 = ctx.raw_prog()
+    changed9 = True
+    while changed9:
+        changed9 = False
+        for q_, f_ in rawp9.functions.items():
+            if not f_.module.endswith("source_finder") or \
+                    f_.name in ALLOWED9 or not f_.name.startswith("_"):
+                continue
+            callers = {g_.name for g_ in rawp9.functions.values()
+                       if g_.module == f_.module and g_ is not f_ and any(
+                           isinstance(c, ast.Call) and
+                           norm(c.func).split(".")[-1] == f_.name
+                           for c in ast.walk(g_.node))}
+            if callers and callers <= ALLOWED9:
+                ALLOWED9.add(f_.name)
+                changed9 = True
     n9 = 0
     for q_, f_ in sorted(prog.functions.items()):
         if not f_.module.endswith("source_finder"):
